@@ -80,6 +80,16 @@ CHECKS = {
   text="Every reported size/weight/vsize/id of generated transactions and blocks (counts and lengths at every CompactSize boundary) is compared with len() of the real serialization and an independent stripped-size reader; the weight estimated before signing (with the sizer a caller would pass) is compared with the weight of the transaction signed by the library (grinding on and off); every build_psbt result must conserve value, pay at least ceil(rate x final vsize) after sign/finalize/extract, never create dust change and refuse insufficient inputs, with remainders aimed within +-2 sat of the dust and fee boundaries; fee_from_vsize, package_fee, dust_threshold, FeeRate and amount conversions are compared with exact Fraction/Decimal arithmetic.",
   note="Trusted base: rv/ref/core.py transaction reader, Python's fractions/decimal, Core's GetDustThreshold formula written out in the check. Taproot script-path estimates use a caller-side sizer built from Descriptor.satisfy, as the library requires.",
   ref="DESIGN.md section 3 C18"),
+ "C11": dict(
+  technique="runtime monitoring: role-execution monitors over flow-generated PSBTs: (map,key,value) set algebra with an independent reader, byte equality across all permutations and bracketings of combine, unsigned-transaction invariants, scripted dishonest signer, deep mutation/aliasing fingerprints, PsbtView vs parsed object",
+  text="PSBTs produced by end-to-end flows (22 descriptor shapes, 1..4 inputs, v0/v2, BIP370 required lock times) are enriched and partitioned across 2..4 non-conflicting copies; combine must keep every key-value pair of every operand, give identical bytes for every order and grouping, be idempotent and refuse other transactions/versions; sign, finalize, to_v0, to_v2, combine and reparse must leave the unsigned transaction (and unique id) unchanged over random role sequences; assert_signatures_only / request_signatures must accept the honest answer and refuse every single-field tampering of it; every role must leave its arguments byte-identical and return an object sharing no mutable state with them; PsbtView must agree with the parsed PSBT; join must keep exactly the inputs, outputs and fields of disjoint PSBTs.",
+  note="Trusted base: rv/ref/psbtmap.py for pair extraction; the flows come from the library's own Updater/Signer. Conflicting operands are not judged (BIP174 lets a Combiner pick).",
+  ref="DESIGN.md section 3 C11"),
+ "C14": dict(
+  technique="runtime monitoring: reference-model monitor (descriptor-as-data model with its own writer/evaluator over the BIP32, taproot, BIP380 checksum and BIP327/328/390 references), exhaustive single-character corruption of descriptor strings, wallet inverse-lookup monitors",
+  text="Descriptors generated from a grammar over every function and legal nesting (origins, xpub/xprv/WIF/hex keys, plain and hardened wildcards, multipath, musig) are derived at boundary and random indexes on all networks and compared with BIP32 + hand-assembled scripts; parse(str(d)) == d, normalized/at_index/multipath expansion, checksum == BIP380 reference, every single-character substitution and deletion refused; index_of / position_of / assert_derives are inverse to derivation for every wallet kind and answer 'not mine' for foreign scripts.",
+  note="Trusted base: rv/ref/scripts.py, descsum.py, bip32.py, taproot.py, bip390.py (self-tested on Core descriptor vectors, BIP380/387/390/328/327/67/341 vectors). Miniscript inside wsh()/tr() is C15's.",
+  ref="DESIGN.md section 3 C14"),
 }
 
 def main():
